@@ -107,6 +107,31 @@ type c05Pair struct {
 	B      objSpec `json:"b"`
 	ParseA bool    `json:"parse_a"`
 	Stop   int     `json:"stop"`
+	Scale  float64 `json:"scale,omitempty"` // every ordinate is multiplied by this (projected coordinates, large magnitudes)
+}
+
+func (s *objSpec) scaled(k float64) objSpec {
+	t := *s
+	mul := func(ps []fpt) []fpt {
+		if ps == nil {
+			return nil
+		}
+		out := make([]fpt, len(ps))
+		for i, p := range ps {
+			out[i] = fpt{F(float64(p.X) * k), F(float64(p.Y) * k)}
+		}
+		return out
+	}
+	t.Pts = mul(s.Pts)
+	t.Rings = nil
+	for _, r := range s.Rings {
+		t.Rings = append(t.Rings, mul(r))
+	}
+	t.Children = nil
+	for i := range s.Children {
+		t.Children = append(t.Children, s.Children[i].scaled(k))
+	}
+	return t
 }
 
 func baseGeoms(o geojson.Object) (pt *geometry.Point, rc *geometry.Rect, ln *geometry.Line, pl *geometry.Poly) {
@@ -241,7 +266,11 @@ func callEverything(r *fw.Rec, a, b geojson.Object, stop int) {
 }
 
 func c05PairCheck(c c05Pair) fw.Outcome {
-	a, b := c.A.build(), c.B.build()
+	sa, sb := c.A, c.B
+	if c.Scale != 0 && c.Scale != 1 {
+		sa, sb = c.A.scaled(c.Scale), c.B.scaled(c.Scale)
+	}
+	a, b := sa.build(), sb.build()
 	if c.ParseA {
 		if o, err := geojson.Parse(a.JSON(), &geojson.ParseOptions{IndexChildren: 1, IndexGeometry: 1, IndexGeometryKind: geometry.RTree, AllowSimplePoints: true, AllowRects: true}); err == nil {
 			a = o
@@ -342,7 +371,8 @@ func genLatticeSpec(t *rapid.T, depth int, allowCircle bool) objSpec {
 }
 
 func c05GenPair(t *rapid.T) c05Pair {
-	return c05Pair{A: genLatticeSpec(t, 3, true), B: genLatticeSpec(t, 3, true), ParseA: rapid.Bool().Draw(t, "parsea"), Stop: rapid.IntRange(0, 3).Draw(t, "stop")}
+	return c05Pair{A: genLatticeSpec(t, 3, true), B: genLatticeSpec(t, 3, true), ParseA: rapid.Bool().Draw(t, "parsea"), Stop: rapid.IntRange(0, 3).Draw(t, "stop"),
+		Scale: rapid.SampledFrom([]float64{1, 1, 1, 0.001, 1000, 65536, 1e6, 3e9, 1e-7}).Draw(t, "scale")}
 }
 
 // ---------- size-doubling series ----------
